@@ -53,6 +53,34 @@ CHECKS = {
          "All reachable code on all paths: no write can touch caller-owned or package-level memory (one whitelisted cell), no order-sensitive map iteration; determinism, input immutability and race-freedom for distinct policy values follow.",
          "Trusted: go/ssa; the points-to analysis is a field- and context-insensitive over-approximation with explicit summaries for builtins, sort/slices mutators and read-only packages; an unsummarised call receiving caller/global memory fails the check.",
          "DESIGN.md section 4, C13"),
+ "C01": ("other", "emitter automaton (E1): path-sensitive event automaton of the code generator over go/ssa, label resolution, whole-program object graph with symbolic fragment lengths; spine reachability along no-match edges, entry/action edge rules, accumulator typing, value-origin of the compared number, return-builder contract",
+         "A complete argument on the schema of all label-level programs (every policy maps into the analysed graph): first matching group else default, errno carries EPERM. Stated at label level; equality with emitted lists above 255 instructions is C06 (necessary conditions only), which is why the level is `other` and not `proof`.",
+         "Trusted: go/ssa, cBPF semantics, syscall tables (C12), the E1 engine itself. Conservative: a construct the automaton does not model fails the check.",
+         "DESIGN.md sections 2.2 and 4, C01"),
+ "C02": ("proof", "template extraction per operation from the emitter automaton and exhaustive evaluation over the ordering classes {<,=,>}^2 / bit classes {0,1}^2 (a complete partition of all 2^128 argument/operand pairs), in both byte-order worlds, last and non-last position; affine constant propagation of the word offsets per byte-order branch; byte-order detection cases",
+         "Finite, exhaustive case split: 62 class rows per (position, byte order) = 248 rows, all must agree with the unsigned 64-bit relation; word selection derived for both layouts (the tests force big-endian and cannot see the production layout).",
+         "Trusted: go/ssa, cBPF jump-test semantics, struct seccomp_data layout, the E1 engine. Label level (C06).",
+         "DESIGN.md section 4, C02"),
+ "C03": ("other", "E1 object graph: AND/OR edge rules by label role and last-iteration predicate, empty-alternative typestate, accumulator typing of every comparison on all paths and variants; path-count rule (exactly one outcome per conditional name) and in-place merge shape in toSyscallsWithConditions",
+         "All policies at label level: AND within a list, OR across lists, and no comparison against a syscall number with an argument word in the accumulator (the statement's last sentence).",
+         "Trusted: go/ssa, cBPF semantics, C02 for the meaning of one condition. Label level (C06).",
+         "DESIGN.md section 4, C03"),
+ "C04": ("other", "E1 whole-program graph per variant (x86_64/other x short/long arch jump): position + 1 + skip evaluated as a linear form over symbolic fragment lengths, suffix query on the layout automaton, edge rules for the arch compare and the x32 guard, accumulator typing",
+         "Complete at label level for both jump encodings and every program size (the distance to the end is shown constant); `other` because the label-to-emitted step above 255 instructions is C06.",
+         "Trusted: go/ssa, cBPF semantics (unsigned jge), UAPI constants (oracle), arch.X32 literal (C12).",
+         "DESIGN.md section 4, C04"),
+ "C05": ("other", "E1: instruction-kind whitelist and load-offset forms over every emitted literal instance, label typestate (created, bound once on every path, not used after bound, followed by an instruction), successor/tail/underflow queries per variant, closed return set, patcher bridge kinds; E2.narrow: every narrowing integer conversion exact, guarded or listed with a reason",
+         "The verifier's documented conditions decided on the label-level schema; kernel acceptance of patched programs above 255 instructions depends on C06; the 4096 bound is not analysed.",
+         "Trusted: go/ssa, documented bpf_check_classic / seccomp_check_filter conditions, x/net/bpf encoding of the four kinds.",
+         "DESIGN.md section 4, C05"),
+ "C06": ("other", "affine-dimension (point/vector) typing of Index arithmetic, coverage of every Index-typed storage cell by updateIndices, anchor/order/quiescence/stale-value rules over the patcher's SSA, bridge-kind and bridge-skip origin rules",
+         "Necessary conditions only (each one the reason of a real defect that was repaired): full behavioural equivalence of the patcher is an inductive invariant over mutable state and is NOT claimed.",
+         "Trusted: go/ssa, cBPF jump semantics. A sufficient discipline is recognised for the order rule, so a differently organised correct patcher could be reported (stated conservatism).",
+         "DESIGN.md section 4, C06"),
+ "C07": ("other", "dominance and guard-shape rules for every listed rejection (resolved on value origins), nil-on-error over the compile call graph, sibling agreement of four operation tables (constants, Operations, validated set, lowered set from the E1 automaton), unreachability of the patcher's own errors at label level, enumeration of panic sites (gc prove pass listing + SSA scan + nil guards)",
+         "Every listed defect class is rejected before emission with (nil, error) on all paths; nothing is silently dropped; panics inside the patcher's index arithmetic are assumed under C06, not proved.",
+         "Trusted: go/ssa dominators, gc prove pass, E1 engine.",
+         "DESIGN.md section 4, C07"),
 }
 NOT_YET = "check under construction in this session (see DESIGN.md section 4 for the planned rules); not claimed until it runs"
 ALL = ["C%02d" % i for i in range(1, 20)]
